@@ -472,6 +472,29 @@ func runDecodeCorpus(c *fw.Ctx, mode string) error {
 		}
 	}
 
+	// 4b. wide nested arrays around a failing core: d levels of Variant arrays that each claim K elements, then junk.
+	// Decoding has to give up at the first failure instead of trying the rest of every level (K^d work).
+	for _, d := range []int{2, 3, 4, 5, 6, 7} {
+		for _, k := range []int{16, 64, 255} {
+			for _, core := range []byte{0x3f, 0xff, 0x98} {
+				i := idx
+				idx++
+				if !mine(i) {
+					continue
+				}
+				in := make([]byte, 0, 5*d+k)
+				for l := 0; l < d; l++ {
+					in = append(in, 0x98)
+					in = binary.LittleEndian.AppendUint32(in, uint32(k))
+				}
+				for j := 0; j < k; j++ {
+					in = append(in, core)
+				}
+				r.one("wide", i, variantT, "wide nested arrays around a failing core", in, "")
+			}
+		}
+	}
+
 	// 5. random bytes
 	nrand := int64(c.Pick(10000, 1000000))
 	for k := int64(0); k < nrand; k++ {
@@ -665,7 +688,7 @@ func init() {
 	fw.Register("C03", fw.Spec{
 		Plan: func(tier string) fw.Plan {
 			p := fw.Plan{Batches: 8, TimeoutS: 600, MinNontrivial: 5000, Level: "exploration", MemLimitMB: 12288,
-				Rule:        "the C02 corpus (mutated valid encodings, length bombs, Variant header grid, towers, random bytes) plus targeted non-canonical forms inside containers (ExtensionObjects with unknown type ids / empty bodies / every mask, Variant masks with the dims bit but not the array bit, reserved mask bits of DataValue, LocalizedText, DiagnosticInfo, NodeID, ExpandedNodeID); every input that decodes is re-encoded and decoded again; distinct = distinct (type, input) pairs, non-trivial = all (the oracle only fires on the subset that decodes; that count is in coverage.classes['c03:decoded'])",
+				Rule:        "the C02 corpus (mutated valid encodings, length bombs, Variant header grid, towers, wide nested arrays around a failing core, random bytes) plus targeted non-canonical forms inside containers (ExtensionObjects with unknown type ids / empty bodies / every mask, Variant masks with the dims bit but not the array bit, reserved mask bits of DataValue, LocalizedText, DiagnosticInfo, NodeID, ExpandedNodeID); every input that decodes is re-encoded and decoded again; distinct = distinct (type, input) pairs, non-trivial = all (the oracle only fires on the subset that decodes; that count is in coverage.classes['c03:decoded'])",
 				Assumptions: []string{"equality as in C01 (nil==empty, 100ns, NaN, DataValue fields iff mask bit)"}}
 			if tier == "thorough" {
 				p.Batches = 16
